@@ -475,6 +475,26 @@ theorem history_obj_handed_down {mk : List Bytes → Option Matcher} (hmk : MkOK
       · exact hptr
       · exact hptr2 lg hlg
 
+/-- **history_obj_restored_noloc**: the same for histories dispatched WITHOUT location buffer: every dispatch
+    of the history is defined, and the `RtData` still holds the caller's object (and no location buffer)
+    afterwards — so every dispatch of the history hands the root table's callbacks the caller's object
+    (`dispatch_linear_iff` says which callbacks those are). -/
+theorem history_obj_restored_noloc (mk : List Bytes → Option Matcher) {P : PPorts} :
+    ∀ (ms : List HMsg), (∀ m ∈ ms, InScope P m.addr m.tags m.rest) →
+    ∀ (d : RtData), d.loc = none →
+    ∃ logs d', runHistory mk P.render d ms = some (logs, d') ∧ logs.length = ms.length ∧
+      d'.obj = d.obj ∧ d'.loc = none := by
+  intro ms
+  induction ms with
+  | nil => intro _ d hd; exact ⟨[], d, rfl, rfl, rfl, hd⟩
+  | cons m r ih =>
+    intro hs d hd
+    have hm := hs m (List.mem_cons_self)
+    obtain ⟨log, d1, h1, ho, hl⟩ := obj_restored_noloc mk hm m.k m.base d hd
+    obtain ⟨logs, d2, h2, hlen, ho2, hl2⟩ := ih (fun x hx => hs x (List.mem_cons_of_mem _ hx)) d1 hl
+    refine ⟨log :: logs, d2, ?_, by simp [hlen], by rw [ho2, ho], hl2⟩
+    simp only [runHistory, h1, h2]
+
 /-- **loc_in_bounds**: `dispatch` never compares with `loc_size`; no write leaves a buffer
     that holds the content of `loc` on entry, the address and a terminator. -/
 theorem loc_in_bounds {mk : List Bytes → Option Matcher} (hmk : MkOK mk) {P : PPorts} {addr tags rest : Bytes}
@@ -532,6 +552,48 @@ theorem recurs_index (lit rest ds tail : Bytes) (c : UInt8)
 example : Sugar.recursIdx [109, 105, 100, 115, 35, 52, 47] ([109, 105, 100, 115, 48, 51, 47, 120, 0]) = some 3 := by decide
 example : (mergePorts [[.leaf [97], .leaf [98]], [.leaf [98], .leaf [99]]]).map Entry.name = [[97], [98], [99]] := by decide
 example : (clonePorts [.leaf [97], .leaf [98], .leaf [99]] [[99], [97]]).map (·.map Entry.name) = some [[99], [97]] := by decide
+
+/-- **merge_exact**: the table `MergePorts` builds is exactly this: the ports of all the merged tables, in
+    order, a port being kept iff no port with its name came before (`keepNew`, Proofs/PortsBuild.lean: a
+    three-line recursion with the names met so far).  A `mergePorts` that drops, reorders or prefers a later
+    port does not satisfy it; the three readings below (completeness, first occurrence kept, order) and
+    `merge_no_repeats` follow from it. -/
+theorem merge_exact (parts : List (List Entry)) : mergePorts parts = keepNew [] parts.flatten :=
+  mergePorts_eq_keepNew parts
+
+/-- **merge_first_occurrence**: for every name, the port `MergePorts` holds under that name is the FIRST
+    port with that name among the merged tables taken in order (with its sub-table: an `Entry` carries it);
+    it holds none iff none of them has the name. -/
+theorem merge_first_occurrence (parts : List (List Entry)) (n : Bytes) :
+    (mergePorts parts).find? (fun e => e.name = n) = parts.flatten.find? (fun e => e.name = n) := by
+  rw [mergePorts_eq_keepNew, keepNew_find]; simp
+
+/-- **merge_complete**: every name of every merged table is a name of the result. -/
+theorem merge_complete (parts : List (List Entry)) :
+    ∀ p ∈ parts, ∀ e ∈ p, ∃ e' ∈ mergePorts parts, e'.name = e.name := by
+  intro p hp e he
+  have hmem : e ∈ parts.flatten := List.mem_flatten.mpr ⟨p, hp, he⟩
+  have hsome : (parts.flatten.find? (fun x => x.name = e.name)).isSome = true :=
+    List.find?_isSome.mpr ⟨e, hmem, by simp⟩
+  rw [← merge_first_occurrence] at hsome
+  obtain ⟨e', he'⟩ := Option.isSome_iff_exists.mp hsome
+  exact ⟨e', List.mem_of_find?_eq_some he', by simpa using List.find?_some he'⟩
+
+/-- **merge_order**: the ports of the result stand in the order of the merged tables. -/
+theorem merge_order (parts : List (List Entry)) : (mergePorts parts).Sublist parts.flatten := by
+  rw [mergePorts_eq_keepNew]; exact keepNew_sublist [] _
+
+/-- **clone_last_source_port**: the i-th port of `ClonePorts(src, list)` is the LAST port of the source that
+    has the i-th listed name — the whole port (`Entry`: name and sub-table), not only its name; the result
+    has as many ports as the list has names (`clone_names`). -/
+theorem clone_last_source_port (src : List Entry) (list : List Bytes) (res : List Entry)
+    (h : clonePorts src list = some res) (i : Nat) :
+    res[i]? = (list[i]?).bind (fun n => src.reverse.find? (fun p => p.name = n)) :=
+  clonePorts_get src list res h i
+
+example : mergePorts [[.leaf [97], .node [98] .nil false], [.leaf [98], .leaf [99], .leaf [97]]]
+    = [.leaf [97], .node [98] .nil false, .leaf [99]] := by decide
+example : clonePorts [.leaf [97], .node [97] .nil true, .leaf [99]] [[99], [97]] = some [.leaf [99], .node [97] .nil true] := by decide
 
 /-! ## The object handed down through the library's recursion macros
 
@@ -880,6 +942,23 @@ theorem high_byte_name_counterexample :
     matcherOfUnfixed realSearch f20Names = none ∧
     (matcherOf realSearch f20Names).map (·.pos) = some [] ∧
     (full ([0xc3, 0xa9, 121] ++ [0]) f20Msg).map (·.1) = some true := by
+  refine ⟨?_, ?_, ?_⟩ <;> decide +kernel
+
+/-- table {":i", "b"}: a port whose whole name is a type specification -/
+def b1Table : Table := .leaf [58, 105] (.leaf [98] .nil)
+def b1Msg : Bytes := mkMsg [47] [105] [0, 0, 0, 0]
+
+/-- **empty_name_counterexample** (second review, B1): the hypothesis "names are not empty in front of their
+    type specification" (`nameWf`: `p.segs ≠ []`) cannot be dropped from `loc_independent`.
+    `generate_minimal_hash` separates key and type specification with `idx = tmp.find(':'); if(idx > 0)`: for
+    the name ":i" the whole name stays the key, the table {":i", "b"} is hashed, and the message "/" ",i" — which
+    `rtosc_match` and hence the linear search accept for ":i" — finds no port with a location buffer.  (Such a
+    port is reached with an empty address, which `rtosc_argument_string` rules out by `assert(msg && *msg)`:
+    not a meaningful name; documented as an assumption, not generated.) -/
+theorem empty_name_counterexample :
+    (dispatchReal ⟨b1Table, false⟩ b1Msg k8Data true).map (fun r => r.1.map (·.who)) = some [] ∧
+    (dispatchReal ⟨b1Table, false⟩ b1Msg { k8Data with loc := none } true).map (fun r => r.1.map (·.who)) = some [.port [0]] ∧
+    (matcherOf realSearch b1Table.names).map (fun pm => (pm.fixed, pm.pos.isEmpty)) = some ([[58, 105], [98]], false) := by
   refine ⟨?_, ?_, ?_⟩ <;> decide +kernel
 
 /-! ## Non-vacuity -/
